@@ -783,6 +783,14 @@ void opt_args(opt_t * opt, int argc, char *argv[])
 
     if (opt->wcoll) {
         /*
+         *  Re-expand wcoll to allow two sets of brackets.
+         *   (For historical compatibility)
+         *  This is done first so that the filters below see the final
+         *   host names, not the result of the first expansion.
+         */
+        wcoll_expand (opt);
+
+        /*
          *  Now apply wcoll filtering
          */
         if (exclude_list) {
@@ -793,12 +801,6 @@ void opt_args(opt_t * opt, int argc, char *argv[])
             wcoll_apply_regex (opt, regex_list);
             list_destroy (regex_list);
         }
-
-        /*
-         *  Finally, re-expand wcoll to allow two sets of brackets.
-         *   (For historical compatibility)
-         */
-        wcoll_expand (opt);
     }
 }
 
@@ -1449,8 +1451,22 @@ static void wcoll_apply_excluded (opt_t *opt, List excludes)
      *  filter explicitly excluded hosts:
      */
     i = list_iterator_create (excludes);
-    while ((arg = list_next (i)))
-        hostlist_delete (opt->wcoll, arg);
+    while ((arg = list_next (i))) {
+        /*
+         *  Expand arg in two passes like wcoll_expand() did for the
+         *   targets: hostlist_delete() is the second pass.
+         */
+        hostlist_t hl = hostlist_create (arg);
+        char *host;
+
+        if (hl == NULL)
+            continue;
+        while ((host = hostlist_shift (hl))) {
+            hostlist_delete (opt->wcoll, host);
+            free (host);
+        }
+        hostlist_destroy (hl);
+    }
     list_iterator_destroy (i);
 }
 
